@@ -434,10 +434,10 @@ def gen_cases(rng, tier, have):
             for a in aa:
                 C.append(mk("sqrootmodprimepower", [a, q, k], "sqrtpk", a=a, p=q, k=k))
             k += 1
-    for i in range(60 if th else 20):
+    for i in range(60 if th else 14):
         q = rng.choice([3, 5, 7, 17, 41, 97, 193, 257, 65537]) if rng.chance(1, 2) else rand_prime(rng, rng.choice([20, 40, 64, 70]), rng.choice([1, 3, 5, 7, 9, 11, 13, 15]))
         for k in ([2, 3, 4, 5, 6, 7, 8, 9, 15, 16, 17, 31, 32, 33, 40] if th else [2, 3, 4, 5, 7, 8, 16, 33, 40]):
-            if q.bit_length() * k > (1600 if th else 800):
+            if q.bit_length() * k > (1600 if th else 520):
                 continue
             qk = q ** k
             r = rng.range(1, qk - 1)
@@ -505,7 +505,7 @@ def gen_cases(rng, tier, have):
         for cls in (1, 5, 9, 13):
             C.append(mk("brillhart", [rand_prime(rng, bits, cls)], "brillhart"))
             C[-1]["p"] = C[-1]["iargs"][0]
-    for q in [x for x in primes if x < (160 if th else 64)]:
+    for q in [x for x in primes if x < (160 if th else 48)]:
         for k in range(-q - 1, 2 * q + 2):
             for v in ("sumofsquares", "sumofsquares.det", "sumofsquares.mc", "sumofsquares.noerh"):
                 if v == "sumofsquares" and k % 3:
@@ -531,7 +531,7 @@ def gen_cases(rng, tier, have):
     # exact powers and their neighbours (the table of squares p^(2^j) and the greedy descent), word-sized and multi-limb bases
     for b in [2, 3, 5, 7, 10, 2 ** 16, 65537, 2 ** 32 - 1, 2 ** 32, 2 ** 63 + 9, 2 ** 64, 2 ** 64 + 13, 3 ** 50 + 2, rng.bits(130) + 2]:
         for e in [1, 2, 3, 4, 5, 7, 8, 9, 15, 16, 17, 31, 32, 33, 63, 64, 65, 127, 128, 129]:
-            if b.bit_length() * e > (9000 if th else 2200):
+            if b.bit_length() * e > (9000 if th else 1100):
                 continue
             for a in (b ** e - 1, b ** e, b ** e + 1, b ** e * (b - 1) + b ** e - 1):
                 if a >= 1:
@@ -546,14 +546,14 @@ def gen_cases(rng, tier, have):
             if a >= b:
                 C.append(mk("logp", [a, b], "logp", a=a, b=b))
     # ---- symbols, integer roots (single GMP calls)
-    for b in range(-45, 46):
-        for a in range(-45, 46):
+    for b in range(-32, 33):
+        for a in range(-32, 33):
             C.append(mk("kronecker", [a, b], "kronecker", a=a, b=b))
             if b > 0 and b % 2:
                 C.append(mk("jacobi", [a, b], "jacobi", a=a, b=b))
     for q in primes:
         if 2 < q < (2000 if th else 300):
-            for a in (range(-3, q + 3) if q < 300 else [rng.range(0, q) for _ in range(20)]):
+            for a in (range(-3, q + 3) if q < (300 if th else 130) else [rng.range(0, q) for _ in range(20)]):
                 C.append(mk("legendre", [a, q], "legendre", a=a, b=q))
     for i in range(300 if th else 100):
         b = rand_prime(rng, rng.range(20, 200)) * rng.choice([1, 1, 3, 5 * 7])
@@ -724,14 +724,27 @@ def spec(c, out, small_cache):
     raise KeyError(k)
 
 
-NO_MODEL = {"probable_prim_root", "jacobi", "legendre", "kronecker", "isqrt", "isqrtrem", "iroot"}
+NO_MODEL = {"isqrt", "isqrtrem", "iroot"}
 
 
 def model_line(c, out):
     """input line of the extracted model for this case (oracle inputs taken from the implementation's output)"""
     k = c["kind"]; t = out.split(";")[0].split()
-    if k in NO_MODEL or c["iop"] == "sumofsquares.mc":
+    if k in NO_MODEL:
         return None
+    if k in ("jacobi", "legendre", "kronecker"):
+        return "kronecker %d %d" % (c["a"], c["b"])
+    if k == "probable_prim_root":
+        if len(t) > 1 and t[1] != "0":
+            return None                       # incomplete factorisation (never for these p): no model
+        parts = out.split(";")                 # result ; draws ; factor set of p-1 in the order IntFactorDom::set delivers it
+        fs = parts[2].split() if len(parts) > 2 else []
+        F = factor(c["n"] - 1)
+        if sorted(zip(fs[0::2], fs[1::2])) != sorted((str(q), str(e)) for q, e in F.items()):
+            return "BAD-FACTOR-SET"
+        return "probable_prim_root %d %s %s" % (c["n"], L(fs), L(parts[1].split()))
+    if c["iop"] == "sumofsquares.mc":
+        return "sos_mc %d %d %s" % (c["k"], c["p"], L(out.split(";")[1].split() if ";" in out else []))
     if k == "phi":
         return "phi %d %s" % (c["n"], L(c.get("Lf", sorted(factor(c["n"])) if c["n"] > 0 else [])))
     if k == "mobius" or k == "mobiusL":
@@ -814,6 +827,8 @@ def corresponds(c, iout, mout):
             if (xi - xm) % qe and not (q != 2 and (xi + xm) % qe == 0):
                 return False
         return 0 <= xi and 0 <= xm
+    if k == "probable_prim_root":
+        return ti[0] == tm[0]
     if k == "sos" and c["iop"] != "sumofsquares.noerh":
         p = c["p"]
         return all((int(x) - int(y)) % p == 0 or (int(x) + int(y)) % p == 0 for x, y in zip(ti[:2], tm[:2]))
@@ -919,12 +934,15 @@ def main(tier, replay=None):
     ]
     chk.assumptions = [
         "model is hand-written after the code; tie = correspondence on generated cases (exact, except: sqrootmod compared per prime power up to the sign of the root, sumofsquares (deterministic, with non-residue) up to the sign of each component, prim_root with the implementation's candidate re-checked by the model's guard)",
-        "not modelled, specification oracle only: probable_prim_root, sumofsquaresmodprimeMonteCarlo (random witness not observable), jacobi/legendre/kronecker, sqrt/sqrtrem/root (single GMP calls)",
+        "not modelled, specification oracle only: sqrt/sqrtrem/root (single GMP calls); jacobi/legendre/kronecker are modelled by the binary Kronecker-symbol algorithm; probable_prim_root (complete factorisation) and sumofsquaresmodprimeMonteCarlo consume the re-produced random draws",
         "domain: n >= 2 for lambda/prim_elem (n = 1 dereferences an empty vector), n of the shape 2,4,p^m,2p^m or 4 | n for prim_root (documented: loops forever otherwise), odd primes for prim_root_of_prime, a >= p >= 2 for logp, p prime for the sqrt-mod-prime family",
     ]
     # 1. proofs
+    import time as _t
+    ph = {}; t0 = _t.time()
     res = vf.coq_check_props(AREA)
     chk.proof_result(res, AREA)
+    ph["coq"] = round(_t.time() - t0, 1); t0 = _t.time()
     # 2. executables
     drv, l1 = vf.ocaml_build(AREA) if os.path.exists(os.path.join(vf.coq_dir(AREA), "ocaml", "model.ml")) else (None, "extraction did not run")
     if drv is None:
@@ -934,6 +952,7 @@ def main(tier, replay=None):
         chk.broke("implementation harness does not compile against /repo", l2)
         return chk.finish()
     chk.cov["members_that_instantiate"] = have
+    ph["build"] = round(_t.time() - t0, 1); t0 = _t.time()
     for k, (flag, stmt, site) in PROBES.items():
         if not have[k]:
             chk.fail_input(site, "does-not-compile", {"statement": stmt}, "the public member instantiates", "compile error",
@@ -963,6 +982,7 @@ def main(tier, replay=None):
     if not okr:
         chk.broke("implementation harness failed repeatedly", ierr[-2000:])
         return chk.finish()
+    ph["gen+impl"] = round(_t.time() - t0, 1); t0 = _t.time()
     mlines = [None if (o is None or o.startswith("CRASH")) else model_line(c, o) for c, o in zip(cases, iout)]
     mout = None
     idx = [i for i, m in enumerate(mlines) if m is not None]
@@ -972,6 +992,7 @@ def main(tier, replay=None):
             chk.broke("model driver failed", merr)
         else:
             mout = dict(zip(idx, mo))
+    ph["model"] = round(_t.time() - t0, 1); t0 = _t.time()
     # 4. three-way comparison
     cache = {}
     ncorr = 0
@@ -1013,6 +1034,7 @@ def main(tier, replay=None):
                        "a = residue / non-residue / divisible by p^t / negative / unreduced) through self-certifying checks; "
                        "non-trivial = some argument of magnitude > 1; distinct = (call form, arguments)")
     chk.cov["traces_validated_against_impl"] = ncorr
+    ph["compare"] = round(_t.time() - t0, 1); chk.cov["phase_seconds"] = ph
     chk.cov["distribution_by_kind_and_class"] = dist
     chk.cov["cases_without_model_oracle_only"] = len(cases) - len(idx)
     return chk.finish()
